@@ -671,6 +671,9 @@ func (e *Engine) modFromContract(ct *Contract, ms *modSet) {
 				if lit, ok := c.Args[0].(*EStr); ok && c.Fn == "key" {
 					ms.keys[lit.V] = true
 				}
+				if lit, ok := c.Args[0].(*EStr); ok && c.Fn == "prefix" {
+					ms.keys["$prefix:"+lit.V] = true
+				}
 			}
 			if name != "" {
 				ms.keys["$field:"+name] = true
